@@ -1,0 +1,50 @@
+//go:build verif
+
+package ancestor
+
+// Machine-checked contracts for /verif (read as text by the VC generator; no code).
+//
+//@ iface SearchStrategy.Choose
+//@   requires len(options) > 0
+//@   ensures  0 <= result && result < len(options)
+//@
+//@ funcfield MetricStrategy.metricFn
+//@   pure
+//@
+//@ func (*MetricStrategy).Choose
+//@   requires st != nil && st.metricFn != nil && len(options) > 0
+//@   ensures  0 <= result && result < len(options)
+//@   ensures  forall(j, 0, len(options), st.metricFn(options[result]) >= st.metricFn(options[j]))
+//@   loop 1 invariant 0 <= _k && _k <= len(options) && 0 <= maxI && (_k > 0 ==> maxI < _k) && (_k == 0 ==> maxI == 0 && maxWeight == 0)
+//@   loop 1 invariant _k > 0 ==> maxWeight == st.metricFn(options[maxI])
+//@   loop 1 invariant forall(j, 0, _k, st.metricFn(options[maxI]) >= st.metricFn(options[j]))
+//@
+//@ func (*RandomStrategy).Choose
+//@   requires st != nil && st.r != nil && len(options) > 0
+//@   ensures  0 <= result && result < len(options)
+//@
+//@ func ChooseParents
+//@   requires len(strategies) + len(existingParents) <= 1000000000000
+//@   requires forall(i, 0, len(strategies), strategies[i] != nil)
+//@   ensures  [prefix] len(result) >= len(existingParents) && forall(j, 0, len(existingParents), result[j] == existingParents[j])
+//@   ensures  [count] len(result) - len(existingParents) <= len(strategies)
+//@   ensures  [offered] forall(j, len(existingParents), len(result), inL(options, len(options), result[j]) && !inL(existingParents, len(existingParents), result[j]))
+//@   ensures  [norepeat] forall(j, len(existingParents), len(result), !inL(result, j, result[j]))
+//@   ensures  [exhaust] len(result) < len(existingParents) + len(strategies) ==> forall(h hash.Event, inL(options, len(options), h) ==> inL(result, len(result), h))
+//@   loop 1 modifies optionsSet[*]
+//@   loop 1 invariant 0 <= _k && _k <= len(existingParents) && optionsSet != nil
+//@   loop 1 invariant forall(h hash.Event, has(optionsSet, h) == (inL(options, len(options), h) && !inL(existingParents, _k, h)))
+//@   loop 2 modifies optionsSet[*], parents[*]
+//@   loop 2 invariant arrof(parents) == arrof(atentry(parents)) || arrof(parents) >= _loopalloc
+//@   loop 2 invariant 0 <= i && i <= len(strategies) && len(parents) == len(existingParents) + i && optionsSet != nil
+//@   loop 2 invariant forall(j, 0, len(existingParents), parents[j] == existingParents[j])
+//@   loop 2 invariant forall(h hash.Event, inL(parents, len(existingParents), h) == inL(existingParents, len(existingParents), h))
+//@   loop 2 invariant forall(h hash.Event, has(optionsSet, h) == (inL(options, len(options), h) && !inL(parents, len(parents), h)))
+//@   loop 2 invariant forall(j, len(existingParents), len(parents), inL(options, len(options), parents[j]) && !inL(existingParents, len(existingParents), parents[j]))
+//@   loop 2 invariant forall(j, len(existingParents), len(parents), !inL(parents, j, parents[j]))
+//@   loop 2 hint use inL_ext(parents, existingParents, len(existingParents))
+//@   loop 2 hint assert len(parents) == len(iterold(parents)) + 1 && forall(j, 0, len(parents)-1, parents[j] == iterold(parents)[j])
+//@   loop 2 hint use inL_ext(parents, iterold(parents), len(iterold(parents)))
+//@   loop 2 hint assert inL(options, len(options), parents[len(parents)-1]) && !inL(iterold(parents), len(parents)-1, parents[len(parents)-1])
+//@   loop 2 hint use inL_ext2(parents, iterold(parents), len(iterold(parents)))
+//@   loop 2 hint use inL_mono(iterold(parents), len(existingParents), len(iterold(parents)), parents[len(parents)-1])
